@@ -13,7 +13,7 @@ else
 fi
 cd /verif
 for p in $PROPS; do
-  out=$(./check $p 2>&1); rc=$?
+  out=$(MIROS_VERIF_OUT=/tmp/seedrun_out ./check $p 2>&1); rc=$?
   if [ $rc -ne 0 ]; then echo "== $p rc=$rc"; echo "$out" | grep -E "FINDING|construct:|ANALYSIS-ERROR|^      " | cut -c1-260 | head -12; fi
 done
 git -C /repo checkout -- . ; git -C /repo reset -q
